@@ -70,6 +70,15 @@ CHECKS = {
         text='Bounded-exhaustive: every (inmask, prev, violator sets, sticky, grow 0..3) for n<=4 (5-6 partially), thresholds on/around every limit, every mask for 1-3-D interpolation on every axis, '
              'every ivar zero pattern x 4 aesthetics methods, medians n<=7, skymask over flag patterns x ngrow x int16/int32/int64/uint64.',
         note='Trusted: TLC, exact abstraction of masks as position sets. Where the statement leaves the grow neighbourhood of inmask-excluded points open the spec accepts both readings. maxrej/group options outside the statement.'),
+    'C18': dict(
+        category='other', design='DESIGN.md section 4 C18, section 1 (no reals in TLA+)',
+        technique='TLA+ spec (SkyGeom: stripe table, exact anchor points of the mu/nu rotation, exact-separation families over dyadic coordinates, 18 laws) enumerated by TLC and every case replayed into '
+                  'gcirc / SDSSMuNu transforms / stripe_to_* / angles<->vectors; laws over recorded call histories (symmetry, range, never-NaN, agreement with an independent longdouble vector formula, '
+                  'units agreement, round trip, isometry, nu=0 great circle) judged by TLC on harness-measured integer discrepancies with minimum instance counts',
+        text='The spec decides the discrete part exactly (which stripes, which anchor images, which separations are exactly known, which law fires with which tolerance, non-vacuity counts); '
+             'every closeness judgement is a float comparison made by the harness and handed to TLC as a scaled integer. That is why the level is "other" and not model_checking.',
+        note='Trusted: TLC; numpy longdouble chord/atan2 oracle (error ~5e-8 relative at 1 micro-arcsec); position tolerances 1e-9 deg (1e-5 deg within 0.1 deg of an output pole) are harness choices. '
+             'Two corners where IEEE doubles cannot reach relative 1e-6 from rounded radians are excluded by the spec predicate Resolvable and only checked for NaN/range/symmetry.'),
     'C20': dict(
         category='fault_enumeration', design='DESIGN.md section 4 C20',
         technique='TLA+ state machine (EnvProtocol: save/mutate/steps-with-faults/restore) model-checked by TLC for every fault position and initial '
